@@ -79,6 +79,7 @@ def _shard(ctx, shard, nshards):
 
 
 def run(ctx):
+    native.setup()       # translate + compile once, before the shard processes fork
     ctx.shards(_shard, 16, 16)
     return RULE, 'exploration', [
         'ties at the rank boundary and scores within 1e-4 (relative) of the beta threshold are accepted either way',
